@@ -46,8 +46,8 @@ RULE = ('Part A: one case = one (family, parameter tuple of the hand-written box
 ASSUMPTIONS = [
     'Part A is a box, not a proof: sizes as listed in cases() (php up to 12x10, graphs of 6-14 '
     'vertices, chains of depth <= 2 on small members)',
-    'Part B: depth <= 4 with the full alphabet and <= 5 with the core alphabet (quick); '
-    '5 / 6 and an extended alphabet to depth 4 (thorough)',
+    'Part B: depth <= 4 with the full alphabet (20 operations), <= 5 with the core alphabet (10) '
+    'and <= 3 with the extended alphabet (32) in the quick tier; 5 / 6 / 4 in the thorough tier',
     'documented counts are the table DOC of this module, written from the docstrings; for Pitfall '
     '(no count in the docstring) the count is k copies of the variable groups named in the '
     'docstring/paper; RamseyWitness is counted only for k == s',
@@ -77,7 +77,7 @@ def VACUITY(tier):
         'control_oracle_detected': 9,
         'families_exported': 31,
         'transformations_exported': 15,
-        'cli:cnfgen': 300, 'cli:pbgen': 100,
+        'cli:cnfgen': 300, 'cli:pbgen': 80,
         'chain:depth1': 200, 'chain:depth2': 1500,
         'family:php:OPB': 20, 'family:cpls:CNF': 5, 'family:kcliquebin:CNF': 50,
         'family:sparsestone:OPB': 20, 'family:pitfall:CNF': 4,
